@@ -150,8 +150,8 @@ func RunWorker(prop string, seed uint64, worker, cases int, scratch, out string,
 					if sess.Dead {
 						break
 					}
-					// (create and updatecloneinfo are not mode-gated; updatecloneinfo on a replica that has a chain is
-					// known finding F24 and has its own directed case below)
+					// (create and updatecloneinfo are not mode-gated; updatecloneinfo on a replica that has a chain was
+					// finding F24 and has its own directed history)
 					if rq.Valid && rq.Method == "POST" && strings.HasPrefix(rq.URL, "/v1/replicas/1?action=") && !strings.HasSuffix(rq.URL, "=setreplicamode") && !strings.HasSuffix(rq.URL, "=close") &&
 						!strings.HasSuffix(rq.URL, "=updatecloneinfo") && !strings.HasSuffix(rq.URL, "=create") {
 						rq.Class = "mode-matrix"
@@ -234,9 +234,9 @@ func headReqs(l []Req, n int) []Req {
 	return l
 }
 
-// runCloneInfoOnLiveChain is the directed history behind known finding F24: the action table offers updatecloneinfo
-// in every open state, and the engine takes the snapshot name it is given as the new parent of the head without
-// looking at the chain. After a revert to s1 the snapshot s2 lies outside the live chain; updatecloneinfo(s2) makes
+// runCloneInfoOnLiveChain is the directed history behind finding F24 (repaired: the call is now refused when the head
+// already has another parent): the action table offers updatecloneinfo in every open state, and the engine took the
+// snapshot name it was given as the new parent of the head without looking at the chain. After a revert to s1 the snapshot s2 lies outside the live chain; updatecloneinfo(s2) makes
 // it the head's parent, the next snapshot inherits that parent, and removing s1 then dereferences the missing
 // member inside the handler (net/http recovers; the chain can no longer be listed).
 func runCloneInfoOnLiveChain(res *vk.Result, r *vk.Rand, scratch string, j *os.File, worker int) {
